@@ -20,4 +20,15 @@ UNITS = [
          remove_bodies=[f for f in _g if f not in keep], extra_flags=["--nondet-static", "--unwind", "9"], covers=2, min_obligations=4, timeout=300,
          stubbed_contracts=["bidib_state_get_board_ref", "strdup"])
     for n, d, keep in [("points", [], ["bidib_get_board_points", "bidib_free_id_list_query"]), ("signals", ["VP_H_SIGNALS"], ["bidib_get_board_signals", "bidib_free_id_list_query"])]
+] + [
+    Unit(name="C14." + n, src="units/C14/conv.c", defines=d, functions=fns, props=["C14"], no_dfcc=True, kind=kind, bound=bound,
+         remove_bodies=[f for f in _st if f not in fns] + ["bidib_config_init_parser", "bidib_config_parse_scalar_then_section", "bidib_config_parse"],
+         extra_flags=["--nondet-static", "--unwind", "19"], covers=2, min_obligations=5, timeout=600,
+         stubbed_contracts=["strtol (executable model of the C standard contract, stubs/vp_strtol.h)"] if n != "uids_equal" else [])
+    for n, d, fns, kind, bound in [
+        ("to_byte", ["VP_H_BYTE"], ["bidib_string_to_byte"], "bounded", "every string of at most 5 characters"),
+        ("to_uid", ["VP_H_UID"], ["bidib_string_to_uid", "bidib_string_to_byte"], "bounded", "every string of at most 17 characters"),
+        ("to_dccaddr", ["VP_H_DCC"], ["bidib_string_to_dccaddr", "bidib_string_to_byte"], "bounded", "every string of at most 7 characters"),
+        ("uids_equal", [], ["bidib_state_uids_equal"], "proof", ""),
+    ]
 ]
